@@ -24,7 +24,8 @@ import (
 // second connection (resumption) is attempted with the client's session cache.
 type Case24 struct {
 	tlsh.Case
-	Two bool `json:"two"`
+	Two   bool `json:"two"`
+	CCert bool `json:"ccert"` // the client holds a (valid) certificate for client authentication
 }
 
 // Rec is one observation record (one connection).
@@ -34,11 +35,15 @@ type Rec struct {
 	S      tlsh.EP  `json:"s"`
 	Down   int      `json:"down"`
 	Second bool     `json:"second"`
+	CCert  bool     `json:"ccert"`
 	Obs    tlsh.Obs `json:"obs"`
 }
 
 func runCase(cs Case24) []Rec {
 	cs.C, cs.S = cs.C.NonNil(), cs.S.NonNil()
+	if cs.CCert {
+		cs.CScen, cs.CKey = "ClientTrusted", "P"
+	}
 	b, err := tlsh.Build(cs.Case, true)
 	if err != nil {
 		obs.Fatal("case %d: %v", cs.ID, err)
@@ -66,7 +71,7 @@ func runCase(cs Case24) []Rec {
 	}
 	for k := 0; k < n; k++ {
 		r := tlsh.Run(b.Client, b.Server, tlsh.RunOpt{Filter: filter})
-		out = append(out, Rec{ID: cs.ID, C: cs.C, S: cs.S, Down: cs.Down, Second: k == 1, Obs: tlsh.Observe(r)})
+		out = append(out, Rec{ID: cs.ID, C: cs.C, S: cs.S, Down: cs.Down, Second: k == 1, CCert: cs.CCert, Obs: tlsh.Observe(r)})
 	}
 	return out
 }
@@ -77,6 +82,10 @@ func randomCase(r *rand.Rand, id int) Case24 {
 	cs.C = tlsh.RandomEP(r, false)
 	cs.S = tlsh.RandomEP(r, true)
 	cs.Two = r.Intn(2) == 0
+	if r.Intn(3) == 0 {
+		cs.S.Auth = r.Intn(5)
+	}
+	cs.CCert = r.Intn(2) == 0
 	if r.Intn(6) == 0 {
 		cs.Down = 10 + r.Intn(3)
 		cs.Two = false
